@@ -71,7 +71,7 @@ CHECKS = {
         "timeout": {"quick": 1200, "thorough": 14000},
     },
     "C13": {
-        "scenarios": [("C02-udp", "vsim"), ("C03-close", "vsim", 0.5), ("C14-sweep", "vsim", 0.5)],
+        "scenarios": [("C02-udp", "vsim"), ("C03-close", "vsim", 0.5), ("C14-sweep", "vsim", 0.5), ("C15-wdeadline", "vsim"), ("C13-closerace", "vreal")],
         "side_only": True,
         "rule": "wire monitor over the hub logs of the C02 / C03 / C14 UDP workloads (fault plans as described there); every emitted "
                 "data/ack datagram's cumulative ack is compared with the contiguous set of that session's datagrams the hub had "
